@@ -124,7 +124,7 @@ _reg(Tool("accumulate", "iter", (1, 1),
                               if "fn" in F else
                               a.accumulate(S[0], **_kw(initial=_opt(V, "initial")))),
           lambda S, F, P, V: _accumulate_ref(S[0], F.get("fn"), V),
-          optional_roles=(("fn", "derive"),), profiles=(I, N, 'grumpy-add', "lists", "acc")))
+          optional_roles=(("fn", "derive"),), profiles=(I, N, 'grumpy-add', "lists", "acc", "aw-add")))
 _reg(Tool("batched", "iter", (1, 1),
           lambda S, F, P, V: a.batched(S[0], P["n"], strict=P["strict"]),
           lambda S, F, P, V: _batched_ref(S[0], P["n"], P["strict"]),
@@ -195,7 +195,7 @@ _reg(Tool("any", "agg", (1, 1),
 _reg(Tool("sum", "agg", (1, 1),
           lambda S, F, P, V: a.sum(S[0], *_positional_opt(V, "start")),
           lambda S, F, P, V: builtins.sum(S[0], *_positional_opt(V, "start")),
-          profiles=(I, N, "lists", "inexact", 'grumpy-add')))
+          profiles=(I, N, "lists", "inexact", 'grumpy-add', "aw-add")))
 _reg(Tool("min", "agg", (1, 1),
           lambda S, F, P, V: a.min(S[0], **_kw(key=F.get("key", _ABSENT), default=_opt(V, "default"))),
           lambda S, F, P, V: builtins.min(S[0], **_kw(key=F.get("key", _ABSENT), default=_opt(V, "default"))),
